@@ -1669,17 +1669,27 @@ def limit_sides(check, prog):
     check.floor('comparisons against a bound', ncmp, 4)
     # c. pegged parameters: inward-facing gradient test and clip
     npeg = 0
+    seen_nodes = set()
     for n in ast.walk(fn):
-        if not isinstance(n, ast.If):
+        # the handling of one side: `if (nlpeg > 0): ...` or a loop over the
+        # pegged indices themselves (`for i in range(nlpeg)`, `for j in whlpeg`)
+        if isinstance(n, ast.If):
+            head = n.test
+        elif isinstance(n, ast.For):
+            head = n.iter
+        else:
             continue
-        ss = sides_in(n.test)
+        ss = sides_in(head)
         if len(ss) != 1 or not all(kind.get(x.id) == 'derived'
-                                   for x in ast.walk(n.test)
+                                   for x in ast.walk(head)
                                    if isinstance(x, ast.Name) and x.id in side):
             continue
         sd = next(iter(ss))
         for st in n.body:
             for x in ast.walk(st):
+                if id(x) in seen_nodes:
+                    continue
+                seen_nodes.add(id(x))
                 if isinstance(x, ast.Compare) and len(x.ops) == 1 and \
                         isinstance(x.left, ast.Name) and \
                         isinstance(x.comparators[0], ast.Constant) and \
